@@ -1,4 +1,5 @@
 import HcipyVerif.Lemmas.FftPipeline
+import HcipyVerif.Lemmas.FftPipeline2
 import HcipyVerif.Lemmas.FourierC02
 import HcipyVerif.Lemmas.Mft
 import HcipyVerif.Lemmas.Czt
@@ -57,6 +58,28 @@ theorem fast_backward_eq_sum (hT : IsChar T) (hE : IsChar E) (hper : ∀ n : ℤ
     fastBackward T E g F j
       = ∑ k ∈ range g.Mo, F k * wOut * (T (g.a k * g.x j) * E (g.s * g.x j)) := by
   rw [fastBackward_eq_sumBackward hT hE hper g hN hMo hcons wOut hw F j hj, sumBackward, sumRange_eq]
+
+/-- **Separability**: the literal 2-D pipeline (`pad`/`ifftshift`/`fftn`/`fftshift`/crop on both
+axes at once, 2-D multipliers `exp(-i·(c_x u_x + c_y u_y))` with one piston, one weight) is the 1-D
+pipeline along `x` followed by the 1-D pipeline along `y`. -/
+theorem fast_forward_2d_separable (hT : IsChar T) (hE : IsChar E) (gy gx : Cfg K C)
+    (hemu : gy.emu = gx.emu) (f : ℕ → ℕ → C) (ky kx : ℕ) :
+    fastForward2 T E gy gx f ky kx = fastForward T E gy (fun iy => fastForward T E gx (f iy) kx) ky :=
+  fastForward2_eq_iter hT hE gy gx hemu f ky kx
+
+/-- **FastFourierTransform.forward on a 2-D grid = the 2-D defining sum**
+`Σ_{iy,ix} f[iy,ix]·w·exp(-i(u_x x + u_y y))`, non-square sizes, per-axis q/fov/shift, both
+shift settings. -/
+theorem fast_forward_eq_sum_2d (hT : IsChar T) (hE : IsChar E) (hper : ∀ n : ℤ, T (n : K) = 1)
+    (gy gx : Cfg K C) (hemu : gy.emu = gx.emu)
+    (hNy : gy.N ≤ gy.M) (hMoy : gy.Mo ≤ gy.M) (hcy : gy.dT * (gy.M : K) * gy.δ = 1)
+    (hNx : gx.N ≤ gx.M) (hMox : gx.Mo ≤ gx.M) (hcx : gx.dT * (gx.M : K) * gx.δ = 1)
+    (f : ℕ → ℕ → C) (ky kx : ℕ) (hky : ky < gy.Mo) (hkx : kx < gx.Mo) :
+    fastForward2 T E gy gx f ky kx
+      = ∑ iy ∈ range gy.N, ∑ ix ∈ range gx.N, f iy ix * (gy.w * gx.w) *
+          (T (-(gx.a kx * gx.x ix + gy.a ky * gy.x iy)) * E (-(gx.s * gx.x ix + gy.s * gy.x iy))) := by
+  rw [fastForward2_eq_iter hT hE gy gx hemu]
+  exact fastForward2Iter_eq_sum hT hE hper gy gx hNy hMoy hcy hNx hMox hcx f ky kx hky hkx
 
 /-- The index core on its own (the round-0 spike): pad → ifftshift → DFT → fftshift → crop is the
 centred sum, for every `M`-periodic kernel. -/
